@@ -1097,6 +1097,10 @@ Qed.
 Example nv_C19_driver_fates_after_cancel : d_token drv_mid = true /\ d_reported drv_mid = [(c17_db2, RErr false)].
 Proof. split; vm_compute; reflexivity. Qed.
 
+Example nv_C19_driver_ctrlc_or_failure_exit_nonzero :
+  drun drv_cf (dst0 drv_cf) drv_sched = (drv_final, drv_trace) /\ List.In (c17_db2, RErr false) (d_reported drv_final).
+Proof. split; [vm_compute; reflexivity|]. vm_compute. left; reflexivity. Qed.
+
 Example nv_C19_driver_never_doomed :
   (0 < c_jobs drv_cf)%nat /\
   drun drv_cf (dst0 drv_cf) (firstn 21 drv_sched) = (drv_mid, snd (drun drv_cf (dst0 drv_cf) (firstn 21 drv_sched))).
